@@ -172,7 +172,9 @@ func judgeLocks(h *schedmc.Hist, sig string) (string, string) {
 					end = c.RetNS
 				}
 				if c.Op == "lease" {
-					end = int64(1) << 62 // keep it simple: a leased lock may be held for ever
+					// a successful Lease(d) replaces the expiry by an instant in
+					// [invocation+d, response+d] (1ms storage resolution on top)
+					end = c.RetNS + int64(ci.timeout) + msNS
 				}
 			}
 			busy = append(busy, iv{hd.c.InvNS, end})
